@@ -1,3 +1,6 @@
 pub mod c03;
 pub mod c08;
+pub mod c09;
+pub mod c10;
+pub mod graphs;
 pub mod layout_rustc;
